@@ -8,10 +8,10 @@ CHECKS = {
    text="Every history up to the stated length over a two-session alphabet (each prefix checked), plus seeded random multi-session histories, is executed against the real tracker, the real Auditd.Read and (thorough) the built daemon; every emitted UserAction's identity is compared with the login the harness delivered for the PID of the session's LOGIN record. Held on what was executed; exhaustive only for the stated bound.",
    note="Trusts the harness's own bookkeeping of what it delivered; unique identities/session ids/PIDs per history; auditevent and go-libaudit are the real libraries.", ref="4 C01"),
  "C02": dict(engine="mon-correlator", cat="exploration", tech="runtime trace monitor: exactly-once/in-order per session over recorded EventEncoder calls",
-   text="Same executions as C01 with the login placed at every split point of the session's events and 1-4 sessions pending; per session the emitted list must equal the delivered list from the LOGIN record to the CRED_DISP, checked after every operation.",
+   text="Same executions as C01 with the login placed at every split point of the session's events and 1-4 sessions pending; per session the emitted list must equal the delivered list from the LOGIN record to the CRED_DISP, checked after every operation. A concurrent-delivery phase (events from one goroutine, login from another, delays at the hooked lock sites) checks the same list under real parallelism; cut-offs of harmless cleanups lie one second before process start, so a correlator that aged entries by record time would lose them. Thorough adds the built daemon.",
    note="Order means delivery order; histories through Auditd.Read finish before the first reassembler maintenance tick (else retried/inconclusive).", ref="4 C02"),
  "C04": dict(engine="mon-correlator", cat="exploration", tech="online safety monitor evaluated after every operation of generated histories",
-   text="Histories mixing correlated sessions with session-less, unset, unknown-session, non-LOGIN-opened and half-only sessions; after each operation everything emitted so far must belong to a session whose LOGIN record and login were both delivered by then, with that session's identity.",
+   text="Histories mixing correlated sessions with session-less, unset, unknown-session, non-LOGIN-opened and half-only sessions; after each operation everything emitted so far must belong to a session whose LOGIN record and login were both delivered by then, with that session's identity. The PID-reuse histories of C09 run here too, for the clause about events after a session's CRED_DISP (a foreign identity can only get there through reuse).",
    note="Necessary condition only (cleanup can only strengthen it); post-CRED_DISP events are checked for identity only.", ref="4 C04"),
  "C09": dict(engine="mon-correlator", cat="exploration", tech="runtime trace monitor over PID-reuse histories (bounded-exhaustive + seeded)",
    text="All placements of the first session's login (incl. after its CRED_DISP), of the second session's login, of 0-2 stray events and of one cleanup, plus random three-generation histories, at the tracker API and through Auditd.Read; the later generation must be emitted exactly once under its own identity and strays never under a foreign identity.",
@@ -20,13 +20,13 @@ CHECKS = {
    text="All arrival orders of up to N halves of three PIDs with a cleanup pair at every gap and every cut-off between earlier arrivals; whether a pending half survived is observed by delivering the other half. Thorough adds one real-time run of Auditd.Read across its one-minute ticker.",
    note="Wall clock must not step backwards within a history; the 60-120 s band is unspecified.", ref="4 C16"),
  "C05": dict(engine="mon-sshd", cat="fault_enumeration", tech="sequence monitor over recorder + harness-owned logins channel under the race detector; fault injection at the event write; cancellation in a state-confirmed blocked hand-off",
-   text="Every accepted branch x PID tokens: exactly one succeeded event, written before the hand-off (channel empty at every write; logical-clock stamps on an unbuffered channel), one login with the line's PID, the certificate key id (or unknown) and the very pointer that was written. Failure/unrecognised lines never forward. Write failure on every form: error returned wrapping the cause, nothing forwarded. Cancellation before the call and while parked in the hand-off (state confirmed from the goroutine dump): returns nil, nothing forwarded.",
+   text="Every accepted branch x PID tokens: exactly one succeeded event, written before the hand-off (channel empty at every write; logical-clock stamps on an unbuffered channel), one login with the line's PID, the certificate key id (or unknown) and the very pointer that was written. Failure/unrecognised lines never forward. Write failure on every form: error returned wrapping the cause, nothing forwarded. Cancellation before the call and while parked in the hand-off (state confirmed from the goroutine dump): returns, nothing forwarded. Slow correlator: nobody receives for a dwell (1.5 s quick, 12 s thorough) while the context is live - the call must still be blocked and must then deliver.",
    note="-race build in child processes; the blocked state is confirmed, not assumed.", ref="4 C05"),
  "C06": dict(engine="mon-sshd", cat="exploration", tech="reference-constructor oracle over generated sshd messages (expected event built from the generated fields), child-process batches",
-   text="21 message forms x each-choice coverage of all boundary pools, then seeded random field values; exactly one event per line, compared field by field with the event constructed from the fields (never from a regular expression).",
+   text="21 message forms x each-choice coverage of all boundary pools, then seeded random field values; exactly one event per line, compared field by field with the event constructed from the fields (never from a regular expression). One accepted line in eight runs with a cancelled context and an unready correlator: the event must be produced all the same.",
    note="Field domains are those of the quantifier; inherently ambiguous renderings are not generated.", ref="4 C06"),
  "C07": dict(engine="mon-sshd+mon-pipe", cat="exploration", tech="differential runtime monitor: same record through the processor directly and through SyslogIngester.Process / a real FIFO; audit parse with and without newline; FIFO->AuditLogIngester->Read vs direct feed",
-   text="Both sides of each comparison are the real code; events and forwarded logins must be equal (modulo uuid and clock). Real FIFOs with five write chunkings; -race build for the FIFO parts.",
+   text="Both sides of each comparison are the real code; events and forwarded logins must be equal (modulo uuid and clock). Real FIFOs with five write chunkings, including records longer than the 4096-byte read buffer on both pipes; -race build for the FIFO parts.",
    note="rsyslog frames records as '<pid> <msg>\\n'.", ref="4 C07"),
  "C11": dict(engine="mon-sshd", cat="exploration", tech="total-function monitor in child processes with write-ahead input log; plain and -race (checkptr) builds",
    text="Hostile lines (every byte-offset truncation of every form, random bytes incl. 64 KiB, mutations, broken certificate tails, hostile PID tokens) through the processor and the syslog ingester: no panic/crash, nil error, at most one event, login only with one succeeded event, event only after a recognised keyword, every extracted field a substring of the line or a fixed placeholder.",
@@ -38,19 +38,19 @@ CHECKS = {
    text="The C06 corpus and the C11 hostile corpus, one line at a time: an emitted UserLogin moves remote_logins_total by exactly one, under an outcome label matching the event and a method label matching the login kind; lines without a recognised keyword move nothing.",
    note="Single-threaded; counters read before and after each line.", ref="4 C19"),
  "C12": dict(engine="mon-pipe", cat="exploration", tech="reference-split oracle over real FIFO streams under the race detector; callback-error injection at every record index",
-   text="Generated byte streams written to a real FIFO under five partitions with pauses; callback arguments must equal the delimiter-terminated records in order (modulo one trailing delimiter), the unterminated tail is never delivered, delivery stops at the injected callback error which is returned unchanged, end-of-stream is an error.",
+   text="Generated byte streams written to a real FIFO under five partitions with pauses; callback arguments must equal the delimiter-terminated records in order (modulo one trailing delimiter), the unterminated tail is never delivered, delivery stops at the injected callback error which is returned unchanged, end-of-stream is an error. One stream in eight stalls 400 ms in the middle of a record.",
    note="Both delimiter conventions are accepted for the callback argument.", ref="4 C12"),
  "C13": dict(engine="mon-pipe+mon-audit", cat="fault_enumeration", tech="state-confirmed cancellation injection with goroutine-dump hang classification; logical-clock check for deliveries after return; -race",
    text="Worker x blocking state x downstream capacity enumerated; each state is confirmed from the goroutine dump before cancel(); the worker must return (stuck = parked after the watchdog, otherwise inconclusive) and nothing may be delivered after the observed return.",
    note="A blocked output writer is not among the listed states and is not injected.", ref="4 C13"),
  "C14": dict(engine="mon-audit", cat="exploration", tech="differential runtime monitor: emitted UserAction vs go-libaudit coalescing of fresh copies of the same lines; snapshot/aliasing check of the stored login",
-   text="Sessions with a bound login and up to 500 record groups through Auditd.Read; every emitted UserAction is compared (type, component, timestamp, session, outcome per result token, action/how/object, process_args presence and content) with the event coalesced from fresh copies; the stored login is snapshotted before and after and the emitted subjects map is mutated to expose aliasing.",
+   text="Sessions with a bound login and up to 500 record groups through Auditd.Read; every emitted UserAction is compared (type, component, timestamp, session, outcome per result token, action/how/object, process_args presence and content) with the event coalesced from fresh copies; the stored login is snapshotted before and after and the emitted subjects map is mutated to expose aliasing. In half of the batches the login arrives after 0-40 held groups, so the hold-queue flush is rendered and compared too.",
    note="go-libaudit's aucoalesce is the oracle for the summary; the outcome expectation comes from the generator's token.", ref="4 C14"),
  "C15": dict(engine="mon-audit", cat="fault_enumeration", tech="fault enumeration on Auditd.Read under the race detector: malformed line / failing k-th write / invalid login / unparsable pid at every position, hang classification for swallowed faults; exactly-once whole-group check on interleaved streams",
    text="Each fault kind is injected at every position in turn; Read must return an error that identifies the line or wraps the injected cause (errors.Is/As); a fault that leaves Read parked is a violation. Clean and line-wise interleaved streams must yield exactly one UserAction per kernel event that reflects all its records.",
    note="auparse.ParseLogLine is the judge of well-formedness.", ref="4 C15"),
  "C08": dict(engine="mon-daemon", cat="fault_enumeration", tech="process-level monitor on the built binary: fault injection per cause x load, wait4 status, SIGQUIT goroutine-dump hang classification; saturation precondition observed from writer stalls",
-   text="The daemon binary built from the working tree is run with two FIFOs; each failure cause is injected at idle and (where meaningful) while a pumping writer keeps the audit pipe full (observed: write(2) hit EAGAIN >= 5 times). The process must exit (a non-exit is a violation only when the SIGQUIT dump shows main parked in errgroup.Wait and a worker parked) with non-zero status after failures. Thorough repeats x3 and with the -race build.",
+   text="The daemon binary built from the working tree is run with two FIFOs; each failure cause is injected at idle and (where meaningful) while a pumping writer keeps the audit pipe full (observed: write(2) hit EAGAIN >= 5 times). The process must exit (a non-exit is a violation only when the SIGQUIT dump shows main parked in errgroup.Wait and a worker parked) with non-zero status after failures. Saturation is measured (>= 10000 lines in flight between pipe and output, the pump feeds events of a correlated session and injects in-stream); every cause is also run with the other pipe still waiting for its writer. Thorough repeats x3 and with the -race build.",
    note="A write failure triggered by a correlated audit event cannot be arranged on the binary (/dev/full fails the login event first); it is enumerated in-process by C15.", ref="4 C08"),
  "C10": dict(engine="mon-daemon", cat="exploration", tech="offline checker over the daemon's output file after a marker-session barrier; in-process logical-clock order check under the race detector",
    text="Concurrent writers on both FIFOs (window 0..unbounded), 50-500 sessions, events up to 64 KiB; every output line must decode as exactly one JSON audit event with mandatory fields, no event key twice, each UserAction after the UserLogin carrying its identity. In-process: shared writer over the recorder, login line and LOGIN record released at the same instant, UserLogin write returns before any UserAction write with its identity starts. Thorough adds the -race daemon.",
